@@ -5,7 +5,7 @@ from common import coq
 from . import util
 
 TARGETS = ['Properties/C04.vo', 'Run/ObsC04.vo', 'Tie/Matrices.vo']
-THEOREMS = []   # filled below
+THEOREMS = ['C04_fast_generate_from', 'C04_fcbo_dual', 'C04_fast_generate_from_terminates', 'C04_fcbo_dual_terminates', 'C04_generators_agree']
 RUN_MODULE = 'Run.ObsC04'
 SHARD_SIZE = 150
 RULE = ('contexts: EXH(9 quick / 12 thorough) + FAM + WIDE + RND; observation = the (extent, intent) pairs emitted by '
